@@ -8,7 +8,7 @@ root=/tmp/alt-$name
 rm -rf "$root"; mkdir -p "$root"
 git -C /repo worktree add --detach "$root/repo" HEAD >/dev/null 2>&1 || { echo "worktree failed"; exit 2; }
 if [ "$patch" != "none" ]; then
-  git -C "$root/repo" apply "$patch" || { echo "patch does not apply"; git -C /repo worktree remove --force "$root/repo"; exit 2; }
+  git -C "$root/repo" apply "$patch" 2>/dev/null || git -C "$root/repo" apply --3way "$patch" || { echo "patch does not apply"; git -C /repo worktree remove --force "$root/repo"; exit 2; }
 fi
 mkdir -p "$root/harness"
 rsync -a --exclude target/debug/incremental /verif/harness/ "$root/harness/"
